@@ -117,6 +117,14 @@ pub fn chaos_delay() {
     }
 }
 
+/// A schedule point inside harness code (e.g. inside a retain predicate).
+pub fn pseudo_point(name: &'static str) {
+    let ctl = CUR.with(|c| c.borrow().clone());
+    if let Some(ctl) = ctl {
+        ctl.on_point(name);
+    }
+}
+
 pub fn thread_rng_seed(seed: u64) {
     TRNG.with(|r| *r.borrow_mut() = Rng::new(seed));
 }
